@@ -3884,6 +3884,26 @@ fn main() {
             println!("wrong={}", wrong);
             println!("first_wrong={}", first);
         }
+        // manifest_torn_prefixes : edits with one added and one deleted file (key lengths 0..40, numbers across the varint boundaries) are
+        // encoded; every proper prefix that decodes must be a complete encoding itself (re-encoding gives back the prefix): a record cut
+        // inside a field must be rejected, not decoded with the torn field dropped
+        "manifest_torn_prefixes" => {
+            let (mut prefixes, mut bad, mut first) = (0usize, 0usize, String::new());
+            for klen in [0usize, 1, 3, 40] {
+                for num in [1u64, 127, 128, 16384, u64::MAX] {
+                    for level in [0usize, 3, 6] {
+                        let key: Vec<u8> = (0..klen).map(|i| b'a' + (i % 26) as u8).collect();
+                        let (n, b) = v::manifest_torn_prefixes(num, level, num, num / 2 + 1, (&key, 9), (&key, 3), (level.saturating_sub(1), num));
+                        prefixes += n;
+                        bad += b;
+                        if b > 0 && first.is_empty() { first = format!("key length {}, numbers {}, level {}: {} of {} prefixes", klen, num, level, b, n); }
+                    }
+                }
+            }
+            println!("prefixes={}", prefixes);
+            println!("accepted_inside_a_field={}", bad);
+            println!("first={}", first);
+        }
         // manifest_codec : edits of trivial moves (file n deleted at level L, added at level L + 1) and a mixed edit are encoded
         // and decoded by the real codec
         "manifest_codec" => {
